@@ -1,5 +1,7 @@
 import LLRP.Proofs.ClientLive
 import LLRP.Gen.Chans
+import LLRP.Proofs.SeqSend
+import LLRP.Proofs.SeqReadLoop
 /-!
 # C09 — close, shutdown, failure and cancellation never leave a caller stuck
 
@@ -450,5 +452,42 @@ def demoCancelMid : List Act :=
 example : (run init demoCancelMid).rd = .deliver { typ := 12, id := 0, pay := 5 } 1 ∧
     ((run init demoCancelMid).callers 1).pc = .done .ctx ∧ enabled (run init demoCancelMid) .rdDeliver = true ∧
     (run init (demoCancelMid ++ [.rdDeliver, .rdHandle])).rd = .idle := by decide
+
+/-! ## `send` and the read loop as translated from the source (go2seq), for every environment -/
+
+/-- a sender that finds the client closed before its request is accepted gets an error identifying the closed client -/
+theorem src_send_closed (E : Gen.Env_llrp_Client_send) (w : E.World) (ctx : E.context_Context) (m : E.Message)
+    (hsel : (E.select_1 (E.context_Context_Done_1 (E.make_Chan_sendToken w 1).1 ctx).1
+              (E.Client_done (E.context_Context_Done_1 (E.make_Chan_sendToken w 1).1 ctx).1)
+              (E.context_Context_Done_1 (E.make_Chan_sendToken w 1).1 ctx).2
+              (E.Client_sendQueue (E.context_Context_Done_1 (E.make_Chan_sendToken w 1).1 ctx).1)
+              (E.set_request_tokenChan (E.set_request_msg E.zero_request m) (E.make_Chan_sendToken w 1).2)).2 = 0) :
+    GoSeq.GoErr.is (Gen.llrp_Client_send E w ctx m).2.2 (.global "ErrClientClosed") = true :=
+  SeqClient.send_closed_before E w ctx m hsel
+
+/-- `send` reports success only with a reply received from the reply channel of its own token -/
+theorem src_send_success_only_by_reply (E : Gen.Env_llrp_Client_send) (w : E.World) (ctx : E.context_Context) (m : E.Message)
+    (hctx1 : ∀ w c, (E.context_Context_Err_1 w c).2 ≠ .nil) (hctx2 : ∀ w c, (E.context_Context_Err_2 w c).2 ≠ .nil)
+    (h : (Gen.llrp_Client_send E w ctx m).2.2 = .nil) :
+    ∃ w1 tok w2, (Gen.llrp_Client_send E w ctx m).2.1 = (E.selrecv_2_2 w2 (E.get_sendToken_replyChan tok)).2.1 ∧
+      (E.recv_Chan_sendToken w1 (E.make_Chan_sendToken w 1).2).2.1 = tok :=
+  SeqClient.send_success_only_by_reply E w ctx m hctx1 hctx2 h
+
+/-- closure requested locally on a healthy connection: the read loop, finding `done` closed at the top of an iteration,
+returns `ErrClientClosed` without reading -/
+theorem src_read_loop_done (E : Gen.Env_llrp_Client_handleIncoming) (fuel : Nat) (w : E.World) (rc : Bool)
+    (hsel : (E.select_1 w (E.Client_done w)).2 = 0) :
+    Gen.llrp_Client_handleIncoming_loop1 E (fuel + 1) w rc
+      = some ((E.select_1 w (E.Client_done w)).1, .global "ErrClientClosed") :=
+  SeqClient.handleIncoming_done E fuel w rc hsel
+
+/-- the connection failed first: a failing read (no CloseConnectionResponse seen) ends the read loop with the failure,
+not with `ErrClientClosed` -/
+theorem src_read_loop_failure (E : Gen.Env_llrp_Client_handleIncoming) (fuel : Nat) (w : E.World)
+    (hsel : (E.select_1 w (E.Client_done w)).2 ≠ 0)
+    (herr : (E.Client_readHeader_1 (E.select_1 w (E.Client_done w)).1).2.2 ≠ .nil) :
+    Gen.llrp_Client_handleIncoming_loop1 E (fuel + 1) w false
+      = some ((E.Client_readHeader_1 (E.select_1 w (E.Client_done w)).1).1, .new "failed to get next message: %v") :=
+  SeqClient.handleIncoming_read_error E fuel w hsel herr
 
 end LLRP.C09
